@@ -2,10 +2,15 @@ use crate::{
     stat::{BucketWrap, LeapArray, MetricTrait},
     Result,
 };
+#[cfg(not(flea1lt_sentinel_rust_verif))]
 use std::sync::{
     atomic::{AtomicU64, Ordering},
     Arc,
 };
+#[cfg(flea1lt_sentinel_rust_verif)]
+use std::sync::{atomic::Ordering, Arc};
+#[cfg(flea1lt_sentinel_rust_verif)]
+use crate::verif::sync::{atomic::AtomicU64};
 
 #[derive(Debug, Default)]
 pub struct Counter {
